@@ -333,7 +333,39 @@ type rh struct {
 	s *ring.Ring
 }
 
+// emptyRings checks the empty ring, which container/ring represents by a nil
+// pointer: New(n) for n <= 0 returns it, its Len is 0 and its Do calls nothing.
+// (container/ring's Next, Prev, Move, Link and Unlink dereference their receiver,
+// so nothing is asked of them.)
+func emptyRings() *core.Violation {
+	for _, n := range []int{0, -1, -7} {
+		var o *lists.Ring[int]
+		if panics(func() { o = lists.NewRing[int](n) }) || o != nil {
+			return &core.Violation{Signature: "ring:new-nonpositive", Detail: fmt.Sprintf("NewRing(%d) must return the empty (nil) ring as container/ring's New does", n)}
+		}
+	}
+	var o *lists.Ring[int]
+	calls, length := 0, -1
+	if panics(func() { length = o.Len(); o.Do(func(int) { calls++ }) }) || length != 0 || calls != 0 {
+		return &core.Violation{Signature: "ring:nil-receiver", Detail: fmt.Sprintf("on the empty (nil) ring Len must be 0 and Do must call nothing, without panicking: Len=%d, %d calls", length, calls)}
+	}
+	return nil
+}
+
+func panics(f func()) (p bool) {
+	defer func() {
+		if recover() != nil {
+			p = true
+		}
+	}()
+	f()
+	return false
+}
+
 func runRings(sc *Scenario) (*core.Violation, uint64) {
+	if v := emptyRings(); v != nil {
+		return v, 0
+	}
 	var tab []rh
 	oidx := map[*lists.Ring[int]]int{}
 	sidx := map[*ring.Ring]int{}
